@@ -690,6 +690,7 @@ def correspondence(ctx, model_ok=True):
                    "columns exactly or within 1e-9)",
            "samples": cases[:2], "model_runner": "Eval vm_compute in generated cases files (sharded coqc)",
            "failures": [], "broken": []}
+    out["all_cases"] = cases          # the driver runs the property oracle on these as well
     # generator self-test: a category that is never reached says nothing about its branch
     required = ["prior:none", "prior:empty", "prior:foreign", "prior:old jet rows", "calls:2", "jetless:first",
                 "jetless:middle", "jetless:last", "jetless:all", "jetless:none", "boundary dR==R", "boundary eta==limit",
